@@ -36,7 +36,7 @@ void jacobi(CSRMatrix* A, Vector& b, Vector& x, Vector& tmp, int num_sweeps,
                 else
                     row_sum += A->vals[j] * tmp[col];
             }
-            if (fabs(diag) > zero_tol)
+            if (diag != 0.0)
                 x[i] = ((1.0 - omega)*tmp[i]) + (omega*((b[i] - row_sum) / diag));
         }
     }
